@@ -313,7 +313,8 @@ def run(ctx):
     ctx.explore("asan", cs, desc="forked sanitised executions")
     ctx.notes["entries"] = sorted(set(c[0] for c in cs))
     if ctx.stats.get("control_ok", 0) < 1:
-        raise SystemExit("C20: negative control missing - check broken")
+        # (a harness failure, never a verdict: exit 2 through mc/cli.py)
+        raise RuntimeError("C20: negative control missing - check broken")
     ctx.assumptions += [
         "AddressSanitizer/UBSan (gcc) on an -O1 build of the four extension "
         "modules; uninstrumented numpy/scipy/igraph are trusted",
